@@ -378,6 +378,10 @@ Fixpoint chain {K T} (conv : K -> T -> outcome T) (ks : list K) (i : T) : outcom
   | k :: r => do i' <- conv k i; chain conv r i'
   end.
 
+(* the law of one kind on a domain: the conversion succeeds, preserves the interface, and stays in the domain *)
+Definition kind_law (conv : kind -> ir -> outcome ir) (D : ir -> bool) (k : kind) : Prop :=
+  forall i, D i = true -> exists i', conv k i = Ok i' /\ preserved i i' = true /\ D i' = true.
+
 (* ------------------------------------------------------------------ wire *)
 
 Definition dec_kind (e : sexp) : option kind :=
